@@ -19,7 +19,7 @@ PROFILE_CLI = {
     "n_inputs": (1, 3), "p_clim": 0.3, "p_has_obs": 0.9, "p_has_fcst": 1.0, "p_party_has": 0.95,
     "miss_rates": [0.0, 0.05, 0.15, 0.3], "p_keep_dim": 0.9, "n_times": (1, 4), "n_leadtimes": (1, 3),
     "n_locations": (1, 3), "p_pit": 0.3, "p_x0": 0.15, "p_ens": 0.3, "p_thr": 0.3, "p_q": 0.3, "p_other": 0.3,
-    "p_nc": 0.35, "p_no_id": 0.25,
+    "p_nc": 0.35, "p_no_id": 0.15,
 }
 
 
